@@ -15,11 +15,15 @@ import (
 	"github.com/gopacket/gopacket"
 )
 
-func decodePrismValue(data []byte, pv *PrismValue) {
+func decodePrismValue(data []byte, pv *PrismValue) error {
 	pv.DID = PrismDID(binary.LittleEndian.Uint32(data[0:4]))
 	pv.Status = binary.LittleEndian.Uint16(data[4:6])
 	pv.Length = binary.LittleEndian.Uint16(data[6:8])
+	if 8+int(pv.Length) > len(data) {
+		return ErrPrismExpectedMoreData
+	}
 	pv.Data = data[8 : 8+pv.Length]
+	return nil
 }
 
 type PrismDID uint32
@@ -142,7 +146,9 @@ func (m *PrismHeader) DecodeFromBytes(data []byte, df gopacket.DecodeFeedback) e
 
 	m.Values = make([]PrismValue, (m.Length-offset)/12)
 	for i := 0; i < len(m.Values); i++ {
-		decodePrismValue(data[offset:offset+12], &m.Values[i])
+		if err := decodePrismValue(data[offset:offset+12], &m.Values[i]); err != nil {
+			return err
+		}
 		offset += 12
 	}
 
